@@ -102,6 +102,16 @@ def body_factory(ctx):
         else:
             joker = tj.TheJoker(prior, rng=np.random.default_rng(case["seed"]), pool=pool, **kw_ctor)
         prng = np.random.default_rng(case["seed"] + 1)
+        if case.get("alias") is not None and case["seed"] % 3 == 0:
+            # a sampler created without a generator makes one of its own: that, too, must leave the global generators alone
+            g_before = global_state()
+            try:
+                jn = tj.TheJoker(prior, pool=pool, **kw_ctor)
+                jn.rejection_sample(data, lib, in_memory=True)
+            except Exception as ex:
+                raise Violation("TheJoker(prior) without rng: %s: %s" % (type(ex).__name__, str(ex)[:200]))
+            if global_state() != g_before:
+                raise Violation("creating and using a TheJoker without an explicit rng changed numpy's or Python's global random state")
         outs = []
         for k, c in enumerate(case["history"]):
             g0 = global_state()
